@@ -301,3 +301,49 @@ def ctor_collision_sequences():
         seqs.append([mk(a), mk(b), mk(a)])
         seqs.append([mk(b), mk(a), mk(b)])
     return seqs
+
+
+def marg_scenarios():
+    """Recipes whose per-position choices are sampled from a pseudo-random byte stream (MargTrace): list sizes that are and are not
+    powers of two at lengths beyond what one 32-bit word can serve, a large list, capital positions of `one' and `random'."""
+    out = []
+    hy = dict(sep="char", sepChar=o("-"))
+    def wl(ws, L, cap, sep, tag):
+        d = dict(words=[o(w) for w in ws], nolist=0, len=L, cap=cap)
+        d.update(sep)
+        return dict(kind="wl", wl=d, maxTrials=0, failRateOne=0, mode="paths", paths=0, maxLeaves=0, tag=tag, reps=0)
+    names = ["w%04dq" % i for i in range(1024)]
+    for k, L in ((2, 40), (4, 20), (8, 12), (16, 9), (32, 8), (5, 12), (7, 10)):
+        out.append(wl(names[:k], L, "none", hy, "marg-%d-words" % k))
+    out.append(wl(names[:8], 12, "one", hy, "marg-one"))
+    out.append(wl(names[:2], 40, "random", hy, "marg-random"))
+    out.append(wl(names[:6], 12, "random", dict(sep="SFDigits1", sepChar=[]), "marg-random-digits"))
+    out.append(wl(names, 5, "none", hy, "marg-1024-words"))
+    out.append(wl(names[:606], 4, "first", dict(sep="SFDigits1", sepChar=[]), "marg-606-words"))
+    return out
+
+
+def run_marg(ctx, scenarios, name, prop):
+    """Driver `marg` (sharded) + MargTrace: only the verdicts of the calling check's own property count."""
+    sf = ctx.path("marg-scen-%s.ndjson" % name)
+    with open(sf, "w") as f:
+        for s in scenarios:
+            f.write(json.dumps(s) + "\n")
+    drv = ctx.build_harness()
+    shards = min(vlib.NCPU, len(scenarios))
+    procs, files = [], []
+    for k in range(shards):
+        out = ctx.path("marg-%s-%d.ndjson" % (name, k))
+        files.append(out)
+        procs.append(ctx.spawn([drv, "marg", "-seed", str(ctx.seed), "-scen", sf, "-out", out, "-shard", str(k), "-shards", str(shards)]))
+    for p in procs:
+        rc_, o_, e = ctx.wait(p)
+        if p.returncode != 0:
+            raise Undecided("marg driver failed: " + (e or o_)[-800:])
+    files = [f for f in files if os.path.getsize(f) > 0]
+    verdicts = ctx.validate_many("MargTrace", files)
+    n = sum(v["extra"]["marg"] for v in verdicts)
+    ctx.cover["sampled_marginals"] = dict(recipes=n, samples_each=20000, rule="Chernoff bound, t = 80: a false report has probability below 1e-30")
+    ctx.absorb(verdicts, files, lambda l, f, why: dict(kind="marginals", why=why, event={k: v for k, v in vlib.nth_line(f, l).items() if k not in ("pair", "hist")},
+                                                      scenario=[s for s in scenarios if s["tag"] == vlib.nth_line(f, l).get("tag")][:1]))
+    return n
